@@ -137,6 +137,31 @@ fn scenarios(rng: &mut Rng, thorough: bool) -> Vec<Scenario> {
         ch.push(Chunk::new(b"IEND", vec![]));
         v.push(Scenario { name: format!("huge-dims-{}x{}-c{}d{}i{}", w, h, c, d, il), file: assemble(&ch) });
     }
+    // 3b. the same in a CONTINUATION chunk of the image data: a first IDAT (fdAT) with the beginning of the zlib stream, then a data chunk whose
+    // length field declares 256 MiB .. 2 GiB with only the rest of the stream (or nothing) behind it
+    for (w, h) in [(64u32, 64u32), (300, 40)] {
+        let raw: Vec<u8> = (0..h).flat_map(|r| std::iter::once(0u8).chain((0..w).map(move |x| (x as u8).wrapping_mul(7).wrapping_add(r as u8)))).collect();
+        let z = zlib_flate2(&raw, 6);
+        let half = z.len() / 2;
+        for (len, rest) in [(0x1000_0000u32, true), (0x7fff_ffff, true), (0x7fff_ffff, false), (0x4000_0000, true)] {
+            // still image: IDAT + oversized IDAT
+            let mut f = assemble(&[ihdr(w, h, 8, 0, 0), Chunk::new(b"IDAT", z[..half].to_vec())]);
+            f.extend_from_slice(&len.to_be_bytes());
+            f.extend_from_slice(b"IDAT");
+            if rest { f.extend_from_slice(&z[half..]); }
+            v.push(Scenario { name: format!("continuation-len-IDAT-{}x{}-{:#x}-{}", w, h, len, rest), file: f });
+            // animation: complete first frame, second frame = fdAT + oversized fdAT
+            let mut first = 1u32.to_be_bytes().to_vec(); first.extend_from_slice(&z[..half]);
+            let mut f = assemble(&[ihdr(w, h, 8, 0, 0), actl_chunk(2, 0), fctl_chunk(0, w, h, 0, 0, 1, 10, 0, 0), Chunk::new(b"IDAT", z.clone()),
+                fctl_chunk(1, w, h, 0, 0, 1, 10, 0, 0), fdat_chunk(2, &z[..half])]);
+            let _ = first;
+            f.extend_from_slice(&len.to_be_bytes());
+            f.extend_from_slice(b"fdAT");
+            f.extend_from_slice(&3u32.to_be_bytes());
+            if rest { f.extend_from_slice(&z[half..]); }
+            v.push(Scenario { name: format!("continuation-len-fdAT-{}x{}-{:#x}-{}", w, h, len, rest), file: f });
+        }
+    }
     // 3. chunk length fields near 2^31 (body shorter than declared: the stream just ends)
     for ty in [b"tEXt", b"zTXt", b"iTXt", b"iCCP", b"eXIf", b"prVt", b"PLTE", b"tRNS", b"IDAT", b"sBIT", b"fdAT", b"gAMA"] {
         for (len, body) in [(0x7fff_ffffu32, 200_000usize), (0x7fff_fff0, 10), (0x4000_0000, 3_000_000), (0xffff_ffff, 1000)] {
